@@ -558,6 +558,8 @@ struct DepsChain {
   }
 
   struct Got { bool has = false; int64_t mtime = 0; std::vector<std::string> deps; };
+  struct RecPlan { int out; int64_t mtime; std::vector<int> deps; };
+  std::map<int, RecPlan> last_plan;   // last record planned per output (across sessions)
 
   void RunSession(int sno) {
     int op = (int)C(10);
@@ -574,7 +576,6 @@ struct DepsChain {
     bool had = k.ReadFile(".ninja_deps", &before);
     DepsLogFold fold = FoldDepsLog(before, had);
 
-    struct RecPlan { int out; int64_t mtime; std::vector<int> deps; };
     std::vector<RecPlan> plan;
     for (int i = 0; i < nrec; i++) {
       RecPlan rp;
@@ -582,6 +583,21 @@ struct DepsChain {
       rp.mtime = 1 + (int64_t)C(1000000) + ((int64_t)C(1000) << 32);
       int ndp = (int)C(5);
       for (int j = 0; j < ndp; j++) rp.deps.push_back((int)C((uint32_t)deps.size()));
+      // sometimes the same output is recorded again with the same mtime and the
+      // same number of dependencies but other ones (a restat command whose
+      // include set changed while its output did not)
+      if (C(4) == 0 && last_plan.count(rp.out)) {
+        const RecPlan& prev = last_plan[rp.out];
+        rp.mtime = prev.mtime;
+        rp.deps = prev.deps;
+        if (!rp.deps.empty()) {
+          uint32_t how = C(3);
+          if (how == 0) std::reverse(rp.deps.begin(), rp.deps.end());
+          else rp.deps[C((uint32_t)rp.deps.size())] = (int)C((uint32_t)deps.size());
+        }
+        n["same_mtime_rerecord"]++;
+      }
+      last_plan[rp.out] = rp;
       plan.push_back(rp);
     }
     char hdr[160];
